@@ -377,6 +377,11 @@ func runC15(c *Ctx, wi int, seed uint64) {
 			}
 			mut("id:unknown", func(o *types.Operation) { o.ID = strings.Repeat("a", 32) })
 			mut("id:empty", func(o *types.Operation) { o.ID = "" })
+			// the pending operation's identifier in another spelling (an operator's client that upper-cases
+			// hex, a pasted id with a blank): it is not the identifier the node issued
+			mut("id:upper-cased", func(o *types.Operation) { o.ID = strings.ToUpper(o.ID) })
+			mut("id:trailing-blank", func(o *types.Operation) { o.ID = o.ID + " " })
+			mut("id:leading-blank", func(o *types.Operation) { o.ID = " " + o.ID })
 			if len(retired[nd.Idx]) > 0 {
 				old := retired[nd.Idx][r.Intn(len(retired[nd.Idx]))]
 				subs = append(subs, c15Sub{Label: "id:retired-operation-resubmitted", Op: cloneOp(old), Expect: "reject"})
